@@ -262,12 +262,12 @@ E["C06"] = dict(
 
 # ---- round 5 addenda: (old count text -> new count text, sentence appended to the claim, optional technique suffix)
 R5 = {}
-R5["C10"] = (("Props/C10.lean, 22", "Props/C10.lean 29 + Props/C10b.lean 11"),
+R5["C10"] = (("Props/C10.lean, 22", "Props/C10.lean 30 + Props/C10b.lean 11"),
     "Round 5: a second translator pass (extract/unwind_wide.py) scans every function of lib/*.c; of 207 functions with two or more acquisition sites and a failure exit, "
-    "100 are established (180 tables for 285 acyclic paths in a second table language with main-path releases; ft_unwind_balanced, ft_failure_reported, wide_*), 5 translate but are "
-    "explained as not established, 102 are listed by name with the reason; a baseline file turns a function that stops satisfying the law into a violation. C10b proves the "
-    "GC-then-retry bound and the ENOMEM plumbing gem -> rtx -> hawk over whole call trees. The tables exposed four defects, all repaired (c9ad707, d48d699, 6d7630a - the former "
-    "finding oom:fnc-setretval-null-value -, 6437739). Quick-tier site coverage of the new tables by injected failures: 47 of 88 functions.")
+    "112 of 208 are established after the second increment (233 tables for 463 acyclic paths in a second table language with main-path releases and element-wise filled objects; ft_unwind_balanced, ft_failure_reported, ft_partial_fill_released, wide_*), 8 translate but are "
+    "explained as not established, 88 are listed by name with the reason; a baseline file turns a function that stops satisfying the law into a violation. C10b proves the "
+    "GC-then-retry bound and the ENOMEM plumbing gem -> rtx -> hawk over whole call trees. The tables exposed five defects, all repaired (c9ad707, d48d699, 6d7630a - the former "
+    "finding oom:fnc-setretval-null-value -, 6437739, 98cbd82). Quick-tier site coverage of the new tables by injected failures: 65 of 100 functions.")
 R5["C02"] = (("Props/C02.lean, 47 obligations", "Props/C02.lean, 69 obligations"),
     "Round 5: a standing exhaustive grid print/printf x redirection operator x shape of the last member x shape of the target x parenthesised list x member count, every written "
     "file or pipe read back inside the program and compared across hawk, gawk and mawk and the Lean interpreter (closes the round-4 miss as a class); all getline forms pairwise; output "
@@ -281,9 +281,9 @@ R5["C07"] = (("Props/C07.lean, 14", "Props/C07.lean, 35"),
 TIE = ("Round 5: the integer arithmetic under these theorems is no longer tied by testing alone: extract/c2lean.py translates the C functions/fragments from clang's typed AST into "
        "Gen/CFuns*.lean on every run and Props/%sTie.lean proves, for all inputs on the stated no-wrap domain, that the hand-written model functions equal the translated C (%s); a semantic "
        "edit of those lines breaks a proof even when no generated case reaches it.")
-R5["C20"] = (("Props/C20.lean, 31", "Props/C20.lean 31 + Props/C20Tie.lean 8"), TIE % ("C20", "szlog2, getxfi, bdec, roundReq in alloc and realloc, the wrapped-size refusal, initSize"))
-R5["C19"] = (("Props/C19.lean, 30", "Props/C19.lean 30 + Props/C19Tie.lean 13"), TIE % ("C19", "the maxCapa tests, minimum capacity, 64-alignment, the doubling loop, the halving retry step, heap parent/child choice"))
-R5["C16"] = (("Props/C16.lean 30 + Props/C16Htb.lean 39", "Props/C16.lean 30 + Props/C16Htb.lean 39 + Props/C16Tie.lean 5"), TIE % ("C16", "htb initial capacity/factor/threshold, the growth rule and threshold of reorganize"))
+R5["C20"] = (("Props/C20.lean, 31", "Props/C20.lean 31 + Props/C20Tie.lean 13"), TIE % ("C20", "szlog2, getxfi, bdec, roundReq in alloc and realloc, the wrapped-size refusal, initSize, the split test and sizes of alloc_from_freelist, both branches of _realloc_merge, the three coalescing cases of free"))
+R5["C19"] = (("Props/C19.lean, 30", "Props/C19.lean 30 + Props/C19Tie.lean 15"), TIE % ("C19", "the maxCapa tests, minimum capacity, 64-alignment, the doubling loop, the halving retry step, heap parent/child choice, the delete/uplete count clamps"))
+R5["C16"] = (("Props/C16.lean 30 + Props/C16Htb.lean 39", "Props/C16.lean 30 + Props/C16Htb.lean 39 + Props/C16Tie.lean 7"), TIE % ("C16", "htb initial capacity/factor/threshold, the growth rule and threshold of reorganize, the bucket index at all seven sites, the grow test"))
 R5["C11"] = (("Props/C11.lean, 25", "Props/C11.lean 25 + Props/C11Tie.lean 9"), TIE % ("C11", "__cmp_ensure_not_equal for all hints, five leaf comparators, the CMP_ERROR test and sign mirror"))
 R5["C08"] = (("Props/C08.lean, 27", "Props/C08.lean, 36"),
     "Round 5: the storage layer itself is inside the model: parse_block's slot layout (outer_nlcls/org_nlcls/nlcls_max) and run_block0's push and reset of block-level locals, by-reference calls over stack garbage "
@@ -294,18 +294,18 @@ R5["C04"] = (("Props/C04.lean, 30", "Props/C04.lean 35 + Props/C04Stack.lean 10"
     "Round 5: separator assignment and the readers' mode selection over ALL histories of RS/FS/CONVFMT/IGNORECASE assignments (mode_fixed_at_last_assignment, regex_mode_only_with_compiled_regex; the unrepaired reader modelled "
     "beside it with the crash witness) - the float-RS/FS-across-CONVFMT crash family is repaired in /repo (5492055); the layers below rio are inside the model by composing C15's tio model: chunk independence is proved bytes -> "
     "characters -> records for all partitions and codecs, single and multi-file (records_from_bytes_chunk_independent, console_from_bytes_eq_spec); buffer sizes regenerated from the headers (extract/rio_sizes.py).")
-R5["C17"] = (("Props/C17.lean, 13", "Props/C17.lean, 23"),
+R5["C17"] = (("Props/C17.lean, 13", "Props/C17.lean, 26"),
     "Round 5: the STATEMENT language is inside the model and the proof: printS transcribes print_stmt byte for byte, parseStmt transcribes the statement parser (blocks with @local, if/else incl. dangling else and ladders, "
     "while, do-while, for in every form, for-in, jump statements, delete/@reset, print/printf with argument lists); stmt_roundtrip_partial / stmt_print_stable / stmt_roundtrip_twice_partial prove acceptance, equivalence and textual "
-    "stability of the second generation for every parser-returnable statement tree (excluded and named: print WITH a redirection - half proved -, getline, the top level); keyword and redirection spellings regenerated from "
+    "stability of the second generation for every parser-returnable statement tree (print with every redirection form included since the second increment; the top level - @global line, function headers with __pN parameters, BEGIN/pattern/END units - is modelled, proved (prog_roundtrip_partial, canonical_names_resolve) and tied unit by unit; excluded and named: getline, by-reference/variadic parameters, @pragma); keyword and redirection spellings regenerated from "
     "kwtab[] / print_outop_str[] (extract/keywords.py); every block of every deparsed program is re-read and re-printed by the model and compared with hawk's second deparse byte for byte. New recorded finding: deparse-float-precision.")
-R5["C18"] = (("Props/C18.lean, 44", "Props/C18.lean, 59"),
+R5["C18"] = (("Props/C18.lean, 44", "Props/C18.lean, 72"),
     "Round 5: the script COMPILER of sed.c is inside the model (SedParse.lean transcribes hawk_sed_comp and every argument reader character by character; harness/sedc_h.c dumps the compiled hawk_sed_cmd_t chain of the real "
     "code - regex sources, arguments, resolved branch targets, error codes - under three chunkings of the script stream); compileText_total, parse_balanced, parse_labels_unique, parse_well_addressed, compile_targets_inside, a "
-    "printer with parseScript (printCmds cs) = cs for all commands except regex addresses and s, the -e/-f joining rules, y as a pointwise map.")
-R5["C06"] = (("Props/C06.lean, 34", "Props/C06.lean, 46"),
+    "printer with parseScript (printCmds cs) = cs for every command incl. regex addresses and s with all flag combinations (regexes/replacements that need no escaping), the -e/-f joining rules, y as a pointwise map, the compiler never reports its internal guard error; executor-level laws for the two seeded classes: the last regex is recorded by every evaluated address and every s independent of the matcher (empty_subst_after_address), the append queue is unbounded and flushed every cycle (appends_every_cycle), per-cycle output order, s///g over the match sequence.")
+R5["C06"] = (("Props/C06.lean, 34", "Props/C06.lean, 52"),
     "Round 5: TRE's front end is inside the model: RexParse.lean transcribes tre-parse.c and produces TRE's syntax tree node for node (harness/rexparse_h.c dumps the real tree after tre_parse(); ~70k patterns per quick run "
-    "incl. exhaustive syntax strings, all eight reject classes); the campaign's Lean matcher now runs on that tree; theorems: tree denotation = POSIX denotation (partial: negated-class lists and classes under ICASE excluded), "
+    "incl. exhaustive syntax strings, all eight reject classes); the campaign's Lean matcher now runs on that tree; theorems: tree denotation = POSIX denotation (both former exclusions - negated-class lists and classes under REG_ICASE - lifted in the second increment; back references excluded), "
     "the verified matcher on the parsed tree is leftmost-longest, submatch marking is language-neutral, a negated bracket is exactly the complement for every item list; tre_macros/ASSERT_* regenerated (extract/tre_tables.py). "
     "What remains untied is exactly tre-compile.c and the two simulations. One defect repaired (a014671).")
 R5["C09"] = (("Props/C09.lean, 23", "Props/C09.lean, 46"),
@@ -323,12 +323,14 @@ R5["C01"] = (("Props/C01.lean, 14", "Props/C01.lean, 19"),
     "subscripts_in_range (504 subscripts into fixed-length arrays: 396 classified and bounded, 108 pinned to a 49-function residue list; enum-indexed tables sized to their enums), switch_total (88 switches over enumerators), "
     "retry_measure_decreases (every retry-after-failure loop has a give-up test and a strictly decreasing step), fmt_number_scan_bounded; six new campaign families (value-type setter histories with CONVFMT between caching and use, "
     "huge counts, raw NUL/invalid UTF-8, end of input inside every token kind, twin wide/byte sequences with scratch-buffer history, far-out hawk::array subscripts, -m memory limits).")
+R5["C13"] = (("Props/C13.lean, 53", "Props/C13.lean 53 + Props/C13Tie.lean 6"), TIE % ("C13", "the substr index and count clamps of fnc.c, character and byte arms, on the full int64 domain"))
+R5["C15"] = (("Props/C15.lean, 50", "Props/C15.lean 50 + Props/C15Tie.lean 3"), TIE % ("C15", "the three byte expressions of hawk_uc_to_utf8; the table walk, loop structure and all of hawk_utf8_to_uc/hawk_utf8_len stay under correspondence: signed bytes, table iteration and early returns are outside the translator's subset"))
 for _pid, (_cnt, _txt) in R5.items():
     if _cnt:
         assert _cnt[0] in E[_pid]["text"], (_pid, _cnt[0])
         E[_pid]["text"] = E[_pid]["text"].replace(_cnt[0], _cnt[1])
     E[_pid]["text"] += " " + _txt
-for _pid in ("C20", "C19", "C16", "C11"):
+for _pid in ("C20", "C19", "C16", "C11", "C13", "C15"):
     E[_pid]["tech"] += " + C-to-Lean translation of the integer arithmetic with kernel-checked equivalence to the model"
 
 claimed = sorted(E)
